@@ -1238,7 +1238,8 @@ def gen_circuit_spec(rng, syms, entries, nq, allow_sub=True, depth=0):
             if len({i for s in inner for i in s['qs']}) < 2:      # keep sub-circuits on >= 2 qubits (the one-qubit unitary shortcut of
                 cz = _gates.G('CZPow', dict(e=1.0, s=0.0), (2, 2))  # CircuitOperation is another property's subject, DESIGN F4)
                 inner.append(dict(sym=cz, num=cz, qs=[0, 1], wrap=None, exprs=[]))
-            ops.append(dict(wrap=('sub', inner, rng.choice([1, 1, 2]), local), qs=list(range(nq)), exprs=[x for s in inner for x in s['exprs']]))
+            ops.append(dict(wrap=('sub', inner, rng.choice([1, 1, 2]), local), qs=list(range(nq)),
+                            exprs=[x for s in inner for x in s['exprs']] + ([local[1]] if local is not None else [])))
             continue
         k = rng.choice([1, 1, 2, 2, 3]) if nq >= 3 else rng.choice([1, 1, 2])
         fam = rng.choice({1: ONE_Q, 2: TWO_Q, 3: THREE_Q}[k])
@@ -1726,6 +1727,13 @@ def compose_stream(ctx, cirq, n):
             # composing evaluates r1's and r2's own entries with value_of: is it a value_of failure on one of them?
             res = [spec_value_of(ctx, cirq, r1, sympy.Symbol(k), True, None, 'compose') for k, _ in r1]
             res += [spec_value_of(ctx, cirq, r2, sympy.Symbol(k), True, None, 'compose') for k, _ in r2]
+            for k, _ in r1:               # ... or of r2 on what r1 makes of a symbol
+                try:
+                    v1 = make_resolver(cirq, r1).value_of(k)
+                except Exception:
+                    continue
+                if isinstance(v1, sympy.Basic) and not v1.is_Number:
+                    res.append(spec_value_of(ctx, cirq, r2, v1, True, None, 'compose'))
             if worst(res) is None:
                 sig = 'compose:reintroduced-symbol' if reintroduces(r1, r2) and not (has_cycle(r1) or has_cycle(r2)) else f'compose:raises:{type(ex).__name__}'
                 ctx.disagree('differential:compose', f'{dict(r1)} then {dict(r2)}', sig,
@@ -1957,6 +1965,14 @@ def load_entries(cirq, rows):
 
 def replay(ctx, data):
     """Re-run the single case of a replay file on the implementation; True iff the property holds on it."""
+    try:
+        return _replay(ctx, data)
+    except Exception as ex:
+        print(f'the implementation raised {type(ex).__name__}: {ex}')
+        return False
+
+
+def _replay(ctx, data):
     import sympy, numpy as np
     cirq = env.import_cirq()
     k = data.get('kind')
